@@ -4,7 +4,7 @@ SPECIFICATION TSpec
 CONSTANTS
   FrontEnd = "v2"
   NCalls = 8
-  UserPrefixes = {"a", "b", "c"}
+  UserPrefixes = {"a", "b", "root"}
   UserVerbs = {"register", "unregister"}
   Routes <- R0
   MaxConn = 2
